@@ -75,7 +75,7 @@ class C10(Check):
     }
     required_probes = [
         "step_with_nonzero_mismatch", "step_with_zero_mismatch", "repeated_eval_without_step", "two_bodies_spread_into_nonzero_field",
-        "overlapping_supports", "reset_eval_into_dirty_field", "dt_ratio_ge_100", "step_before_any_eval", "uniform_flow_eval", "generic_flow_eval", "prelude_world_with_other_dx", "non_contiguous_eulerian_fields", "deviation_query", "many_markers", "linear_flow_eval",
+        "overlapping_supports", "reset_eval_into_dirty_field", "dt_ratio_ge_100", "step_before_any_eval", "uniform_flow_eval", "generic_flow_eval", "prelude_world_with_other_dx", "non_contiguous_eulerian_fields", "deviation_query", "many_markers", "linear_flow_eval", "creeping_body", "fresh_object_interpolation_probe",
     ]
     tiers = {
         "quick": {"runs": 480, "batch": 6, "timeout": 600},
@@ -146,6 +146,8 @@ class C10(Check):
                     "reset": (rng.random() < 0.25) if nb > 1 else reset,
                     "explicit_args": explicit,
                     "num_threads": rng.choice([False, False, 2]),
+                    "prestrain": rng.choice([1.0, 1.0, 1.25, 0.85]),
+                    "axis_down": rng.random() < 0.4,
                 }
             )
         ops = []
@@ -169,7 +171,7 @@ class C10(Check):
                 if rng.random() < 0.5:
                     ops.append(rng.choice([{"op": "flow", "sub": prng.sub_seed(rng)}, {"op": "flow", "uniform": [rng.uniform(-2, 2) for _ in range(dim)]}, {"op": "flow", "linear": {"a": [rng.uniform(-1, 1) for _ in range(dim)], "B": [[rng.uniform(-3, 3) for _ in range(dim)] for _ in range(dim)]}}]))
                 if rng.random() < 0.5:
-                    ops.append({"op": "move", "body": b, "sub": prng.sub_seed(rng)})
+                    ops.append({"op": "move", "body": b, "sub": prng.sub_seed(rng)} if rng.random() < 0.5 else {"op": "creep", "body": b, "sub": prng.sub_seed(rng), "size": rng.choice([1e-6, 1e-9, 1e-4])})
                 if len(ops) > (60 if n_ops <= 40 else 400):
                     break
                 continue
@@ -182,7 +184,7 @@ class C10(Check):
             elif r < w_eval + 0.25:
                 ops.append({"op": "step", "body": b, "dt": 10 ** rng.uniform(-4, 1)})
             elif r < w_eval + 0.37:
-                ops.append({"op": "move", "body": b, "sub": prng.sub_seed(rng)})
+                ops.append({"op": "move", "body": b, "sub": prng.sub_seed(rng)} if rng.random() < 0.6 else {"op": "creep", "body": b, "sub": prng.sub_seed(rng), "size": rng.choice([1e-6, 1e-9, 1e-4])})
             elif r < w_eval + 0.52:
                 rr = rng.random()
                 if rr < 0.4:
@@ -193,7 +195,7 @@ class C10(Check):
                     ops.append({"op": "flow", "sub": prng.sub_seed(rng)})
             else:
                 ops.append({"op": "consume"})
-        prog = {"dim": dim, "precision": precision, "flow": fi, "reset": reset, "bodies": bodies, "ops": ops}
+        prog = {"dim": dim, "precision": precision, "flow": fi, "reset": reset, "bodies": bodies, "ops": ops, "fresh_probe": rng.random() < 0.5}
         if all(b["kind"] == "prog" for b in bodies) and rng.random() < 0.2:
             prog["padded"] = True
         if all(b["kind"] == "prog" for b in bodies) and rng.random() < 0.15:
@@ -257,7 +259,9 @@ class C10(Check):
         elif kind == "cylinder":
             radius = 2.0 * dx
             n = 6 if g.random() < 0.5 else 10
-            body = ea.Cylinder(start=np.array([centre[0], centre[1], 0.0]), direction=np.array([0.0, 0.0, 1.0]), normal=np.array([1.0, 0.0, 0.0]), base_length=1.0, base_radius=radius, density=1.0)
+            zdir = -1.0 if spec.get("axis_down") else 1.0  # a planar body may have its axis along -z
+            body = ea.Cylinder(start=np.array([centre[0], centre[1], 0.0 if zdir > 0 else 1.0]), direction=np.array([0.0, 0.0, zdir]), normal=np.array([1.0, 0.0, 0.0]), base_length=1.0, base_radius=radius, density=1.0)
+            Q0 = body.director_collection[:, :, 0].copy()
             grid_cls, grid_kw = sps.CircularCylinderForcingGrid, {"num_forcing_points": n}
             h_max = radius * 2.0 * np.pi / n
 
@@ -268,7 +272,8 @@ class C10(Check):
                 body.velocity_collection[:2, 0] = gg.standard_normal(2)
                 body.omega_collection[2, 0] = gg.standard_normal()
                 th = gg.uniform(0, 2 * np.pi)
-                body.director_collection[:2, :2, 0] = [[np.cos(th), np.sin(th)], [-np.sin(th), np.cos(th)]]
+                Rz = np.array([[np.cos(th), -np.sin(th), 0.0], [np.sin(th), np.cos(th), 0.0], [0.0, 0.0, 1.0]])
+                body.director_collection[:, :, 0] = Q0 @ Rz.T  # rows are the body axes d1, d2, d3 turned about z
 
             state_arrays = {"p": body.position_collection, "v": body.velocity_collection, "w": body.omega_collection, "Q": body.director_collection}
         elif kind == "sphere":
@@ -331,6 +336,18 @@ class C10(Check):
                 grid_cls, n = sps.CosseratRodSurfaceForcingGrid, 9
                 grid_kw = {"surface_grid_density_for_largest_element": 3}
                 h_max = max(base_length / n_elems, 0.5 * dx * 2.0 * np.pi / 3)
+            strain = float(spec.get("prestrain", 1.0))
+            if strain != 1.0:
+                # the rod is already stretched / compressed when it is coupled (restart from a deformed
+                # state, settled under load): current spacing differs from the rest spacing
+                x0 = body.position_collection[0, 0]
+                body.position_collection[0] = x0 + strain * (body.position_collection[0] - x0) - 0.5 * (strain - 1.0) * base_length
+                body.compute_internal_forces_and_torques(np.float64(0.0))  # PyElastica refreshes lengths, radius, tangents
+                spacing = float(np.max(np.linalg.norm(np.diff(body.position_collection, axis=1), axis=0)))
+                if kind == "rod_surface":
+                    h_max = max(spacing, float(np.max(body.radius)) * 2.0 * np.pi / 3)
+                else:
+                    h_max = spacing
             pos0 = body.position_collection.copy()
 
             def move(sub):
@@ -358,7 +375,7 @@ class C10(Check):
         n = int(inter.forcing_grid.num_lag_nodes)
         model = PIModel(dim, n, spec["k"], spec["c"], h_max, spec["t0"])
         h_rel = 1.0e-11 if kind.startswith("rod") else 1.0e-15  # elastica regularises rod.lengths at the 1e-13 level
-        return {"reset": reset, "h_rel": h_rel, "inter": inter, "twin": twin, "twin_field": twin_field, "model": model, "state": state_arrays, "move": move, "n": n, "kind": kind, "evals_since_step": 0, "ever_eval": False, "dts": []}
+        return {"rebuild": build, "reset": reset, "h_rel": h_rel, "inter": inter, "twin": twin, "twin_field": twin_field, "model": model, "state": state_arrays, "move": move, "n": n, "kind": kind, "evals_since_step": 0, "ever_eval": False, "dts": []}
 
     @staticmethod
     def _rigid_marker_velocity(b, it, dim):
@@ -497,6 +514,15 @@ class C10(Check):
                     res.probe("linear_flow_eval")
                 else:
                     res.probe("generic_flow_eval")
+                if program.get("fresh_probe") and (oi * 7 + bi) % 5 == 0:
+                    # the interpolated velocity depends on the current flow and marker positions only: a
+                    # freshly constructed interaction evaluated once must give the same bits
+                    fresh_inter = b["rebuild"](False, np.zeros_like(forcing))  # new interaction object on the same body
+                    fresh_inter.compute_interaction_on_lag_grid()
+                    Uf = fresh_inter.lag_grid_flow_velocity_field
+                    res.probe("fresh_object_interpolation_probe")
+                    if Uf.tobytes() != it.lag_grid_flow_velocity_field.tobytes():
+                        res.violation("pi_law", dict(sig0, what="interpolation_depends_on_history", grid=b["kind"], op=kind), f"op {oi} {kind} body {bi}: the interpolated flow velocity differs bitwise from what a freshly constructed interaction gives for the same flow and body state (max dev {float(np.max(np.abs(Uf.astype(np.float64) - U_obs))):.3e})", oi)
                 m.evaluate(U_obs, v_body)
                 # (c) force = k' X + c' V
                 scale = abs(m.k) * max(m.x_scale, float(np.max(np.abs(m.X), initial=0.0))) + abs(m.c) * float(np.max(np.abs(m.V), initial=0.0))
@@ -574,6 +600,14 @@ class C10(Check):
                 tolq = 64 * eps * (b["model"].steps + 1) * max(b["model"].x_scale, tiny) * np.sqrt(b["model"].X.size) + tiny
                 if not abs(val - want) <= tolq:
                     res.violation("pi_law", dict(sig0, what="deviation_norm", grid=b["kind"]), f"op {oi} deviation query on body {bi}: returned {val!r}, integral of the model gives {want!r}", oi)
+            elif kind == "creep":
+                # a slowly creeping body: displacement far below the grid spacing
+                gg = prng.np_rng(op["sub"], "creep")
+                st = b["state"]
+                key = "pos" if "pos" in st else "p"
+                st[key][...] = st[key] + float(op["size"]) * float(dx) * gg.standard_normal(st[key].shape)
+                res.probe("creeping_body")
+                before_state = [snap_body_state(x) for x in bodies]
             elif kind == "move":
                 b["move"](op["sub"])
                 before_state = [snap_body_state(x) for x in bodies]
@@ -639,7 +673,7 @@ class C10(Check):
 
     def simplify(self, program):
         nb = len(program["bodies"])
-        for key in ("prelude", "padded", "shift_frac"):
+        for key in ("prelude", "padded", "shift_frac", "fresh_probe"):
             if program.get(key):
                 c = copy.deepcopy(program)
                 c.pop(key)
